@@ -308,12 +308,59 @@ func c15NRun(c *c15NCase) []string {
 			}
 			res = []string{"OK"}
 			c15NRender(v.Elem(), c.forest, &res)
+			// the caller owns what Bind handed out: it writes through every pointer and into every slice of the
+			// result; the next Bind of the same type must not see any of it (after seed C15-m7: a default value
+			// converted once and shared between bind results)
+			c15Scribble(v.Elem(), 0)
 			return res
 		}()
 		out = append(out, res...)
 		out = append(out, ";")
 	}
 	return out
+}
+
+// c15Scribble overwrites everything reachable from a bind result through pointers and slices.
+func c15Scribble(v reflect.Value, depth int) {
+	if depth > 12 {
+		return
+	}
+	switch v.Kind() {
+	case reflect.Ptr:
+		if !v.IsNil() {
+			c15Scribble(v.Elem(), depth+1)
+		}
+	case reflect.Struct:
+		for i := 0; i < v.NumField(); i++ {
+			if v.Field(i).CanSet() {
+				c15Scribble(v.Field(i), depth+1)
+			}
+		}
+	case reflect.Slice:
+		for i := 0; i < v.Len(); i++ {
+			c15Scribble(v.Index(i), depth+1)
+		}
+	case reflect.Int, reflect.Int8, reflect.Int16, reflect.Int32, reflect.Int64:
+		if v.CanSet() {
+			v.SetInt(77)
+		}
+	case reflect.Uint, reflect.Uint8, reflect.Uint16, reflect.Uint32, reflect.Uint64:
+		if v.CanSet() {
+			v.SetUint(77)
+		}
+	case reflect.Float32, reflect.Float64:
+		if v.CanSet() {
+			v.SetFloat(7.5)
+		}
+	case reflect.String:
+		if v.CanSet() {
+			v.SetString("scribbled")
+		}
+	case reflect.Bool:
+		if v.CanSet() {
+			v.SetBool(!v.Bool())
+		}
+	}
 }
 
 func init() {
